@@ -49,6 +49,9 @@ type C10Case struct {
 	// EOFWithLast: the read that delivers the last bytes of the stream reports io.EOF together
 	// with them (io.Reader allows it; crypto/tls does it when close_notify follows the data)
 	EOFWithLast bool `json:"eof_with_last,omitempty"`
+	// Wipe: the caller owns its buffer between calls: after taking a frame out it overwrites the
+	// whole buffer (a pooled buffer handed on, a fresh one per call, a zeroing allocator)
+	Wipe bool `json:"wipe,omitempty"`
 	// bind part
 	Reply    string `json:"reply,omitempty"` // success | error | indication | notstun | badattr
 	Trailing int    `json:"trailing,omitempty"`
@@ -253,6 +256,11 @@ func runFrames(c *C10Case) (string, string) { //nolint:cyclop
 			return "frame-addr", "ReadFrom returned a frame without the remote address"
 		}
 		consumed += n
+		if c.Wipe {
+			for k := range buf {
+				buf[k] = 0xEE
+			}
+		}
 		// promptness: no Read may have been issued after the frame's last byte had been delivered
 		for _, before := range conn.callsSince {
 			if before >= ends[i] {
@@ -507,6 +515,7 @@ func genC10(rt *rapid.T) *C10Case {
 		c.Buf = rapid.SampledFrom([]int{24, 64, 100, 512, 1500, 1600, 1600, 4096}).Draw(rt, "buf")
 	}
 	c.EOFWithLast = rapid.IntRange(0, 3).Draw(rt, "eofWithLast") == 0
+	c.Wipe = rapid.IntRange(0, 2).Draw(rt, "wipe") == 0
 	if len(c.Cuts) < 64 && rapid.IntRange(0, 3).Draw(rt, "emptyReads") == 0 {
 		for k := rapid.IntRange(1, 3).Draw(rt, "nempty"); k > 0; k-- {
 			c.EmptyAt = append(c.EmptyAt, rapid.IntRange(0, len(c.Cuts)).Draw(rt, "emptyAt"))
